@@ -14,7 +14,7 @@ import numpy as np
 from hypothesis import strategies as st
 
 from .. import core
-from ..core import Clause, HarnessError, Violation, expect_raises, require
+from ..core import Clause, HarnessError, Violation, require
 from ..oracles import shorten_enc as se
 
 PROPERTY = "C13"
@@ -426,7 +426,7 @@ def programs(draw, small=False, allow_long=True):
         target = draw(st.sampled_from([19500, 16400, 17500, 25000]))
         need = -(-target // (per_block * nloop * nchan))
         case["loop"] = loop
-        case["repeat"] = need + draw(st.integers(0, 6))
+        case["repeat"] = need + draw(st.integers(0, 6 if target > 20000 else 1))
     frames = []
     bs = bs0
     nframes = draw(st.integers(0 if long else 1, 3 if small else 6))
@@ -477,7 +477,7 @@ def clauses(tier):
             "encode a drawn program, decode with read_signal (stream, and a .sph path for ~1/6), compare all samples and "
             "the shape; non-trivial = >= 2 distinct block commands, >= 2 blocks per channel and one of "
             "{QLPC, BITSHIFT>0, BLOCKSIZE, ZERO, multi-channel}; distinct by the whole program",
-            programs, quick=700, thorough=16000, sample_fmt=_fmt,
+            programs, quick=700, thorough=80000, sample_fmt=_fmt,
         ),
         Clause(
             "vectors", check_vector,
@@ -490,6 +490,6 @@ def clauses(tier):
             "streams cut after every byte position behind the magic (all positions for streams <= 2 KiB), an undefined "
             "command code at any command position, version bytes outside {1,2}: IOError and nothing else; "
             "non-trivial = at least two blocks before the cut / code not at the first command",
-            _error_cases, quick=150, thorough=3000, sample_fmt=_fmt,
+            _error_cases, quick=150, thorough=16000, sample_fmt=_fmt,
         ),
     ]
